@@ -383,6 +383,19 @@ def eval_model(cases):
     return out
 
 
+def rerun_silent(ctx, exe, lines, impl):
+    """A harness process that dies without any sanitizer diagnosis ("FAULT crash": killed from
+    outside, e.g. under memory pressure) says nothing about the library: the op is run once more
+    in a fresh process.  A deterministic crash recurs and is reported as before."""
+    idx = [i for i, a in enumerate(impl) if a == "FAULT crash"]
+    if idx:
+        again, _ = core.run_lines(exe, [lines[i] for i in idx], shards=1)
+        for i, a in zip(idx, again):
+            impl[i] = a
+        ctx.count("rerun-after-silent-process-death", len(idx))
+    return impl
+
+
 def judge(impl, model):
     if " | " not in model:
         if impl == model:
@@ -418,6 +431,7 @@ def run(ctx):
             core.harness_build_failed(ctx, log)
             continue
         impl, err = core.run_lines(exe, [c[0] for c in cases], shards=SHARDS)
+        impl = rerun_silent(ctx, exe, [c[0] for c in cases], impl)
         for i, (line, expr, cell, cost) in enumerate(cases):
             ctx.cov["evaluations"] += 1
             a, b = impl[i], model[i]
